@@ -769,6 +769,7 @@ def ref_value(u: Universe, bar, raw):
             for nme, (amt, *_r) in pos.items():
                 if nme in listed:  # a position whose instrument is not in the snapshot has no mark: valued at nothing
                     v += fr(amt) * fr(dq(listed[nme], "0.000001"))
+            tol += abs(v) * conv / 10**25  # the conversion into the account quote is a 35-digit Decimal product
         elif key == "glp":
             glp_amt, reward = raw[key]
             g = c["glp"]
